@@ -9,9 +9,9 @@ wt='/tmp/seed/'+tag
 os.makedirs('/tmp/seed',exist_ok=True)
 subprocess.run(['git','-C','/repo','worktree','add','-q','--detach',wt,'HEAD'],check=True)
 # the verification hook files are not part of what the agent should see
-for f in ['contracts_verif.go','internal/contracts_verif.go','store/fscache/contracts_verif.go','store/memcache/contracts_verif.go','store/expapi/contracts_verif.go']:
-    try: os.remove(os.path.join(wt,f))
-    except FileNotFoundError: pass
+for root,_,files in os.walk(wt):
+    for f in files:
+        if f=='contracts_verif.go': os.remove(os.path.join(root,f))
 subprocess.run('cd %s && git add -A && git -c user.email=x@x -c user.name=x commit -qm "scratch base" || true'%wt,shell=True)
 tmpl=open('/verif/tools/seed_prompt.tmpl').read()
 open('/tmp/seed/prompt_%s.txt'%tag,'w').write(tmpl.format(wt=wt,id=tag,title=p['title'],statement=p['statement'],quant=p['quantifier']['text'],extra=extra))
